@@ -387,6 +387,50 @@ pub fn run(rep: &mut Rep) {
             }
         }
     }
+    // one packet arriving in two instalments through a transport that hands out 1 or 2 bytes per read, the run() future changing
+    // hands in between (and being polled once by its new owner): the second instalment is consumed under the new waker
+    {
+        rep.note("handover inside a packet: PUBLISH of 100 / 200 / 1000 / 20 000 bytes delivered in two instalments (cut after 1 .. 150 bytes) with 1- and 2-byte reads, the run() future handed to another task between them: nothing left unread, the PUBACK written");
+        let mut hidx = 91_000_000u64;
+        for size in [100usize, 200, 1000, 20_000] {
+            for cut in [1usize, 2, 3, 40, 70, 150] {
+                for cap in [1usize, 2] {
+                    let id = format!("handover-inside:{size}:{cut}:{cap}");
+                    hidx += 1;
+                    if !rep.take(hidx, &id) {
+                        continue;
+                    }
+                    let mut w = World::boot(WorldCfg { seed: rep.seed, ..Default::default() });
+                    w.sim.capture = Some(Vec::new());
+                    w.in_publish_sized(1, 7, false, &[], size);
+                    let bytes = w.sim.capture.take().unwrap_or_default();
+                    let cut = cut.min(bytes.len() - 1);
+                    w.sim.reader.0.borrow_mut().default_cap = cap;
+                    w.sim.feed(&bytes[..cut]);
+                    w.sim.settle();
+                    w.sim.handover_ctx();
+                    w.sim.settle();
+                    w.sim.feed(&bytes[cut..]);
+                    w.settle_check();
+                    if let Some(sdesc) = w.sim.stalled() {
+                        w.viol(&["C16"], "C16/lost-wakeup/handover-inside-a-packet".into(), format!("{size}-byte PUBLISH cut after {cut} bytes, {cap}-byte reads, run() handed over between the instalments: {sdesc}"));
+                    }
+                    finish(&mut w);
+                    rep.add("evaluations", 1);
+                    rep.add("handovers_inside_a_packet", 1);
+                    rep.distinct(&("handover-inside", size, cut, cap));
+                    for v in w.viols.iter_mut() {
+                        if !v.props.contains(&"C16") && !v.props.contains(&"*") {
+                            v.sig = format!("C16/handover-inside-a-packet/{}", v.sig);
+                            v.props = &["C16"];
+                        }
+                    }
+                    harvest(rep, &mut w, &id);
+                    add_counters(rep, &w);
+                }
+            }
+        }
+    }
     for k in 0..scripts {
         let id = format!("script:{k}");
         if !rep.take(k, &id) {
